@@ -445,6 +445,10 @@ class TestSuiteWriter:
             func, func_used_exc_types = self._build_test_function(idx, tc, exc_types)
             used_exc_types.update(func_used_exc_types)
             functions.append(func)
+            if not needs_pytest and "pytest." in cst.Module(body=[func]).code:
+                # Rendered assertions may refer to pytest themselves, e.g.,
+                # ``pytest.approx`` for floating-point values.
+                needs_pytest = True
 
         # An empty suite still imports the SUT below, so coverage-by-import keeps
         # working; mark the file so the emitted import gets a coverage comment and
